@@ -322,7 +322,18 @@ func init() {
 	register(&Prop{
 		ID: "C17",
 		Rule: "syntax trees of depth 0..4 over 1..8 identifiers with the operators ; = -> | & ^ and brace groups of 1..6 names, rendered with minimal parentheses for the documented priorities and right nesting plus 0..30% redundant parentheses and free spacing (60% of cases, must parse to the documented reading); the same rendering with an operand deleted, a parenthesis added or removed, or a trailing token appended (30%, must give an error); random token sequences (10%, no panic). Go's result is compared structurally with the documented reading built through bf's constructors, with the Lean mirror of the parser (GS.BfParse.parse) on the token sequence, and the mirror's tree is compared semantically (truth table, GS.SF.eval) with the documented reading. Non-trivial = at least one binary operator; distinct = distinct text.",
-		Gens:    []Gen{{Name: "syntax", Weight: 1, Make: func(r *Rng, tier string) interface{} { return genParseCase(r, tier) }}},
+		Gens: []Gen{{Name: "syntax", Weight: 150, Make: func(r *Rng, tier string) interface{} { return genParseCase(r, tier) }},
+			// a long flat text: more than a thousand small parenthesised clauses, nesting depth 1
+			{Name: "many-groups", Weight: 1, Make: func(r *Rng, tier string) interface{} {
+				var toks []string
+				for i, k := 0, r.Range(1001, 1400); i < k; i++ {
+					if i > 0 {
+						toks = append(toks, []string{";", "&", "BAR"}[r.Intn(3)])
+					}
+					toks = append(toks, "(", fmt.Sprintf("v%d", r.Intn(6)), "BAR", "^", fmt.Sprintf("v%d", r.Intn(6)), ")")
+				}
+				return ParseCase{K: 6, Kind: "valid", Tokens: toks, Text: renderTokens(r, toks)}
+			}}},
 		Run:     runParseCase,
 		Cases:   defCases(6000, 150000),
 		Timeout: defDur(10*time.Second, 60*time.Second),
